@@ -48,6 +48,7 @@ UUID_RE = re.compile(r"^[0-9a-f]{8}-[0-9a-f]{4}-[0-9a-f]{4}-[0-9a-f]{4}-[0-9a-f]
 
 GROUP_POOL = ["G1", "My Group", "grp 3", "Survey-Users", "été"]
 FLOW_POOL = ["f", "Flow B", "flow c"]
+GHOST_POOL = ["campaign only flow", "Elsewhere"]        # flows named by campaign events only, never defined
 GIVEN_GROUP_UUID = {g: "aaaaaaaa-0000-4000-8000-%012d" % i for i, g in enumerate(GROUP_POOL)}
 LABELS = ["Created On", "last seen on", "X", "a1 b2", "MiXeD Case", "Two  Spaces", "under_score", "A-b.c",
           "Signup Date 2", "q", "abcdefghijklmnopqrstuvwxyz0123456789", "AB CD EF GH IJ KL MN OP QR ST UV WX"]
@@ -57,6 +58,142 @@ MESSAGES = ["Hello", "Hi there, friend!", "a;b|c\\d", "Ünïcode ✓ 日本", "l
 KEYWORDS = ["hello", "Join Now", "STOP", "the word", "a\\;b", "ok", "été", "k9"]
 CHANNELS = ["", "", "chan-1", "7c9e6679-7425-40de-944b-e07fc1f90ae7"]
 WS = ["", "", "", " ", "  ", "\t", "\n", " "]
+
+# ---- near-duplicate names: a name is the exact string written in the cell (ends trimmed).  Names that are equal
+# only up to inner whitespace, up to letter case or up to a trailing character are DIFFERENT names: different
+# objects, different uuids; a trigger for a near-duplicate of a defined flow is a trigger for an unknown flow.
+NBSP = "\u00a0"
+INNER_WS = ["  ", "\t", NBSP, "   ", " \t", "\u2003"]
+TRAILING = [".", "s", "2", "_", "!", "-"]
+NEAR_GROUP_BASES = ["VIP users", "My Group", "grp 3", "Survey Users été"]
+NEAR_FLOW_BASES = ["welcome flow", "Flow B", "flow c", "Sign Up 2"]
+NEAR_GHOST_BASES = ["campaign only flow", "Else where"]
+NEAR_P = 0.2             # share of generated indexes whose names come from near-duplicate families
+NEAR_UNDEFINED_P = 0.35  # ... of those (main stream, with a trigger row): one trigger names an undefined family member
+
+
+def ws_variants(name):
+    """the name with ONE inner blank written differently (doubled, tab, no-break space, ...)"""
+    out = []
+    for i, ch in enumerate(name):
+        if ch == " ":
+            out += [name[:i] + w + name[i + 1:] for w in INNER_WS]
+    return out
+
+
+def case_variants(name):
+    out = [name.lower(), name.upper(), name.title(), name.swapcase(), name[0].swapcase() + name[1:]]
+    return [v for v in dict.fromkeys(out) if v != name]
+
+
+def trailing_variants(name):
+    out = [name + c for c in TRAILING]
+    if name[:-1] == name[:-1].strip():
+        out.append(name[:-1])
+    return out
+
+
+VARIANT_KINDS = {"ws": ws_variants, "case": case_variants, "trailing": trailing_variants}
+
+
+def near_family(rng, base, n):
+    """`base` and n-1 pairwise different near-duplicates of it: one of every kind first (inner whitespace, letter
+    case, trailing character), then variants of variants"""
+    fam = [base]
+    kinds = sorted(VARIANT_KINDS)
+    rng.shuffle(kinds)
+    tries = 0
+    while len(fam) < n and tries < 200:
+        tries += 1
+        k = len(fam) - 1
+        if k < len(kinds):
+            vs = VARIANT_KINDS[kinds[k]](base)
+        else:
+            vs = VARIANT_KINDS[rng.choice(kinds)](rng.choice(fam))
+        v = rng.choice(vs) if vs else ""
+        if v and v == v.strip() and v not in fam:
+            fam.append(v)
+    return fam
+
+
+def squeeze_ws(s):
+    return " ".join(s.split())
+
+
+def near_kinds(a, b):
+    """in which ways two different names are near-duplicates of each other"""
+    out = set()
+    if a == b:
+        return out
+    if squeeze_ws(a) == squeeze_ws(b):
+        out.add("ws")
+    if a.lower() == b.lower() or a.casefold() == b.casefold():
+        out.add("case")
+    if (len(a) == len(b) + 1 and a[:-1] == b) or (len(b) == len(a) + 1 and b[:-1] == a):
+        out.add("trailing")
+    return out
+
+
+def names_used(case):
+    """(group names, flow names) written anywhere in the index: campaign groups, trigger include / exclude groups,
+    groups of flow rows; flows created by the index, started by flows, named by campaign events and triggers"""
+    groups, flows = [], []
+    defined = [it["name"] for it in case["items"] if it["kind"] == "flow"]
+    flows += defined
+    for f in case["flows"]:
+        if f["name"] in defined:
+            for r in f["rows"]:
+                if r[1] in ("add_to_group", "remove_from_group"):
+                    groups.append(r[4].strip())
+                if r[1] == "start_new_flow":
+                    flows.append(r[6].strip())
+    for it in case["items"]:
+        if it["kind"] == "campaign":
+            groups.append(it["group"].strip())
+        if it["kind"] in ("campaign", "triggers"):
+            for r in it["rows"]:
+                flows.append(r["cells"].get("flow", "").strip())
+                for col in ("groups", "exclude_groups"):
+                    groups += r.get("lists", {}).get(col, [])
+    return ([g for g in dict.fromkeys(groups) if g], [f for f in dict.fromkeys(flows) if f])
+
+
+def near_strata(case):
+    """which kinds of near-duplicate names are used TOGETHER in this index"""
+    out = set()
+    for what, names in zip(("group", "flow"), names_used(case)):
+        for i, a in enumerate(names):
+            for b in names[i + 1:]:
+                out |= {f"neardup.{what}.{k}" for k in near_kinds(a, b)}
+    return out
+
+
+def unknown_near_created(case):
+    """a trigger names a flow the index does not create, and that name is a near-duplicate of a created flow's"""
+    defined = [it["name"] for it in case["items"] if it["kind"] == "flow"]
+    trig = [r["cells"].get("flow", "").strip() for it in case["items"] if it["kind"] == "triggers" for r in it["rows"]]
+    return any(f and f not in defined and any(near_kinds(f, d) for d in defined) for f in trig)
+
+
+def trigger_flow_status(case):
+    """read off the index itself: does a trigger row name a flow that the index does not create?  'nowhere' = nothing
+    else names that flow either (the exact string); 'referenced' = a start_new_flow row / a campaign event names it
+    (known finding F-C06-b); None = every trigger flow is created by the index"""
+    defined = {it["name"] for it in case["items"] if it["kind"] == "flow"}
+    referenced = set()
+    for f in case["flows"]:
+        if f["name"] in defined:
+            referenced |= {r[6].strip() for r in f["rows"] if r[1] == "start_new_flow"}
+    trig = []
+    for it in case["items"]:
+        if it["kind"] == "campaign":
+            referenced |= {r["cells"].get("flow", "").strip() for r in it["rows"]}
+        elif it["kind"] == "triggers":
+            trig += [r["cells"].get("flow", "").strip() for r in it["rows"]]
+    missing = [f for f in trig if f and f not in defined]
+    if any(f not in referenced for f in missing):
+        return "nowhere"
+    return "referenced" if missing else None
 
 
 # ------------------------------------------------------------------ real code
@@ -610,19 +747,30 @@ def unescape(e):
     return e.replace("\\;", ";").replace("\\|", "|").replace("\\\\", "\\")
 
 
-def gen_flows(rng, n_defined):
-    defined = FLOW_POOL[:n_defined]
+def given_group_uuid(g):
+    """one fixed uuid per group name (the exact string)"""
+    if g in GIVEN_GROUP_UUID:
+        return GIVEN_GROUP_UUID[g]
+    h = core.hashlib.sha1(g.encode("utf-8")).hexdigest()
+    return "bbbbbbbb-0000-4000-8000-" + h[:12]
+
+
+DEFAULT_NAMES = {"groups": GROUP_POOL, "flows": FLOW_POOL, "ghosts": GHOST_POOL}
+
+
+def gen_flows(rng, n_defined, names=DEFAULT_NAMES):
+    defined = names["flows"][:n_defined]
     flows = []
     used_groups = []
     for name in defined:
         rows = [["", "send_message", "start", "hi from " + name, "", "", ""]]
         if rng.random() < 0.6:
-            g = rng.choice(GROUP_POOL)
+            g = rng.choice(names["groups"])
             used_groups.append(g)
             # sometimes with the group's uuid given (one fixed uuid per name): campaign / trigger
             # references to that name must then carry the given uuid
             rows.append(["", rng.choice(["add_to_group", "remove_from_group"]), "", "", g,
-                         GIVEN_GROUP_UUID[g] if rng.random() < 0.4 else "", ""])
+                         given_group_uuid(g) if rng.random() < 0.4 else "", ""])
         if rng.random() < 0.35:
             other = rng.choice(defined)
             rows.append(["", "start_new_flow", "", "", "", "", other])
@@ -630,7 +778,7 @@ def gen_flows(rng, n_defined):
     return flows, defined, used_groups
 
 
-def gen_camp_row(rng, headers, defined):
+def gen_camp_row(rng, headers, defined, names=DEFAULT_NAMES):
     et = rng.choice(EVENT_TYPES)
     if "message" not in headers:
         et = "F"
@@ -655,14 +803,14 @@ def gen_camp_row(rng, headers, defined):
         if r < 0.75 and defined:
             c["flow"] = rng.choice(defined)
         elif r < 0.9:
-            c["flow"] = rng.choice(["campaign only flow", "Elsewhere"])   # never defined: invented uuid, one per name
+            c["flow"] = rng.choice(names["ghosts"])   # never defined: invented uuid, one per name
         # else blank: the code accepts a flow event without a flow (name null)
         if rng.random() < 0.15:
             c["message"] = rng.choice(MESSAGES)
     return {"cells": {h: pad(rng, c[h]) for h in headers}}
 
 
-def gen_trig_row(rng, headers, defined):
+def gen_trig_row(rng, headers, defined, names=DEFAULT_NAMES):
     t = rng.choice(TRIG_TYPES)
     if "keywords" not in headers and t == "K":
         t = rng.choice(["C", "M", "T"])
@@ -671,8 +819,8 @@ def gen_trig_row(rng, headers, defined):
         kws = rng.sample(KEYWORDS, rng.randint(1, 3))
     elif rng.random() < 0.15:
         kws = rng.sample(KEYWORDS, rng.randint(1, 2))
-    groups = rng.sample(GROUP_POOL, rng.choice([0, 0, 1, 2]))
-    excl = rng.sample(GROUP_POOL, rng.choice([0, 0, 1, 2]))
+    groups = rng.sample(names["groups"], rng.choice([0, 0, 1, 2]))
+    excl = rng.sample(names["groups"], rng.choice([0, 0, 1, 2]))
     c = {
         "type": t,
         "keywords": join_list(rng, kws),
@@ -693,9 +841,23 @@ def shuffled(rng, xs):
     return xs
 
 
+def gen_names(rng):
+    """the names one index draws from: the fixed pools, or (NEAR_P) families of near-duplicates — names equal up to
+    inner whitespace, letter case, a trailing character — for groups, for the flows the index creates and for the
+    flows only campaign events name.  `spare` = further members of the flow family that nothing creates or names."""
+    if rng.random() >= NEAR_P:
+        return dict(DEFAULT_NAMES, near=False, spare=[])
+    fam = near_family(rng, rng.choice(NEAR_FLOW_BASES), 6)
+    rng.shuffle(fam)
+    return {"groups": shuffled(rng, near_family(rng, rng.choice(NEAR_GROUP_BASES), 5)),
+            "flows": fam[:3], "spare": fam[3:],
+            "ghosts": near_family(rng, rng.choice(NEAR_GHOST_BASES), 3), "near": True}
+
+
 def gen_case(rng, cid, stream):
+    names = gen_names(rng)
     n_def = rng.randint(1, 3)
-    flows, defined, _ = gen_flows(rng, n_def)
+    flows, defined, _ = gen_flows(rng, n_def, names)
     items = [{"kind": "flow", "name": n} for n in defined]
     n_camp = rng.choice([0, 1, 1, 2])
     n_trig = rng.choice([0, 1, 1, 2])
@@ -705,17 +867,27 @@ def gen_case(rng, cid, stream):
         opt = [h for h in CAMP_OPTIONAL if rng.random() < 0.75]
         headers = shuffled(rng, CAMP_REQUIRED + opt)
         nrows = rng.choice([0, 1, 1, 2, 3, 4, 5, 6, 7, 8])
-        rows = [gen_camp_row(rng, headers, defined) for _ in range(nrows)]
+        rows = [gen_camp_row(rng, headers, defined, names) for _ in range(nrows)]
         items.append({"kind": "campaign", "sheet": f"camp{i + 1}", "new_name": rng.choice(["", "", "Renamed %d" % i]),
-                      "group": rng.choice(GROUP_POOL), "headers": headers, "rows": rows})
+                      "group": rng.choice(names["groups"]), "headers": headers, "rows": rows})
     for i in range(n_trig):
         opt = [h for h in TRIG_OPTIONAL if h == "flow" or rng.random() < 0.75]
         headers = shuffled(rng, ["type"] + opt)
         nrows = rng.choice([0, 1, 1, 2, 3, 4, 5, 6, 7, 8])
-        rows = [gen_trig_row(rng, headers, defined) for _ in range(nrows)]
+        rows = [gen_trig_row(rng, headers, defined, names) for _ in range(nrows)]
         items.append({"kind": "triggers", "sheet": f"trig{i + 1}", "headers": headers, "rows": rows})
     rng.shuffle(items)
-    case = {"id": cid, "stream": stream, "flows": flows, "items": items, "faults": []}
+    case = {"id": cid, "stream": stream, "flows": flows, "items": items, "faults": [], "near": names["near"]}
+    if names["near"] and stream == "main" and rng.random() < NEAR_UNDEFINED_P:
+        # one (valid) trigger row names a near-duplicate of a created flow: a family member that the index does not
+        # create and that no start_new_flow row / campaign event names (those draw from `defined` and `ghosts` only)
+        trows = [r for it in items if it["kind"] == "triggers" for r in it["rows"]]
+        unknown = [n for n in names["flows"] + names["spare"] if n not in defined]
+        if trows and unknown:
+            rng.choice(trows)["cells"]["flow"] = pad(rng, rng.choice(unknown))
+    st = trigger_flow_status(case)
+    if st:
+        case["undefined_trigger_flow"] = st
     if stream == "invalid":
         inject(rng, case, INVALID_FAULTS)
     elif stream == "edge":
@@ -961,6 +1133,60 @@ def known_cases(start_id):
     return cases
 
 
+def neardup_cases(start_id):
+    """deterministic: for every way of writing a near-duplicate (an inner blank doubled / as a tab / as a no-break
+    space, another letter case, a trailing character more or less) one index that uses a group name, a created flow
+    name and their near-duplicates TOGETHER (campaign groups, trigger include / exclude groups, trigger and event
+    flows): distinct names are distinct objects; and one index whose only trigger names the near-duplicate of the one
+    created flow (nothing else names it): a trigger for an unknown flow."""
+    cases = []
+    cid = start_id
+    g, f = "VIP users", "Welcome flow"
+    shapes = [("ws", lambda n: n.replace(" ", "  ")), ("ws", lambda n: n.replace(" ", "\t")),
+              ("ws", lambda n: n.replace(" ", NBSP)), ("case", str.lower), ("case", str.upper), ("case", str.title),
+              ("trailing", lambda n: n + "s"), ("trailing", lambda n: n + "."), ("trailing", lambda n: n[:-1])]
+
+    def flow_sheet(name, group, start=None):
+        rows = [["", "send_message", "start", "hi from " + name, "", "", ""], ["", "add_to_group", "", "", group, "", ""]]
+        if start:
+            rows.append(["", "start_new_flow", "", "", "", "", start])
+        return {"name": name, "rows": rows}
+
+    for kind, fn in shapes:
+        g2, f2 = fn(g), fn(f)
+        assert g2 != g and f2 != f and g2 == g2.strip() and f2 == f2.strip() and kind in near_kinds(g, g2) and kind in near_kinds(f, f2)
+        ev = {"offset": "2", "unit": "D", "event_type": "F", "relative_to": "Created On", "start_mode": "I", "message": "", "flow": f}
+        evs = [ev, {**ev, "offset": "3", "flow": f2}, {**ev, "offset": "0", "event_type": "M", "message": "Hi there", "flow": ""}]
+        trs = [({"type": "K", "keywords": "join;start", "flow": f, "groups": g2, "exclude_groups": g, "match_type": "O"},
+                {"keywords": ["join", "start"], "groups": [g2], "exclude_groups": [g]}),
+               ({"type": "C", "keywords": "", "flow": f2, "groups": g + ";" + g2, "exclude_groups": "", "match_type": ""},
+                {"keywords": [], "groups": [g, g2], "exclude_groups": []}),
+               ({"type": "M", "keywords": "", "flow": f2, "groups": "", "exclude_groups": g2 + ";" + g, "match_type": ""},
+                {"keywords": [], "groups": [], "exclude_groups": [g2, g]})]
+        cid += 1
+        cases.append({"id": cid, "stream": "neardup", "near": True, "faults": [],
+                      "flows": [flow_sheet(f, g2, start=f2), flow_sheet(f2, g)], "items": [
+            {"kind": "flow", "name": f}, {"kind": "flow", "name": f2},
+            {"kind": "campaign", "sheet": "camp1", "new_name": "", "group": g, "headers": list(ev), "rows": [{"cells": dict(e)} for e in evs]},
+            {"kind": "campaign", "sheet": "camp2", "new_name": "", "group": g2, "headers": list(ev), "rows": [{"cells": dict(e)} for e in evs[:2]]},
+            {"kind": "triggers", "sheet": "trig1", "headers": list(trs[0][0]), "rows": [{"cells": dict(c), "lists": dict(l)} for c, l in trs]}]})
+        # the near-duplicate is NOT created (and named by nothing but the trigger): the trigger is for an unknown flow
+        for created, wanted in ((f, f2), (f2, f)):
+            cid += 1
+            t = {"type": "K", "keywords": "go", "flow": wanted, "groups": g, "exclude_groups": g2, "match_type": ""}
+            cases.append({"id": cid, "stream": "neardup", "near": True, "faults": [], "flows": [flow_sheet(created, g)], "items": [
+                {"kind": "flow", "name": created},
+                {"kind": "campaign", "sheet": "camp1", "new_name": "", "group": g2, "headers": list(ev), "rows": [{"cells": {**ev, "flow": created}}]},
+                {"kind": "triggers", "sheet": "trig1", "headers": list(t),
+                 "rows": [{"cells": {**t, "flow": created}, "lists": {"keywords": ["go"], "groups": [g], "exclude_groups": [g2]}},
+                          {"cells": dict(t), "lists": {"keywords": ["go"], "groups": [g], "exclude_groups": [g2]}}]}]})
+    for c in cases:
+        st = trigger_flow_status(c)
+        if st:
+            c["undefined_trigger_flow"] = st
+    return cases
+
+
 def repair_case(case, fid):
     """repair transform of a finding (counterfactual test)"""
     c = json.loads(json.dumps(case))
@@ -1011,6 +1237,12 @@ def case_worker(cases):
         real = run_real(c)
         res["keys"].append(core.hashlib.sha1(json.dumps(c["items"], sort_keys=True).encode()).hexdigest())
         cnt("stream." + c["stream"].split(":")[0])
+        if c.get("near"):
+            cnt("neardup.indexes")
+        for k in near_strata(c):
+            cnt(k)
+        if c.get("undefined_trigger_flow") == "nowhere" and unknown_near_created(c):
+            cnt("neardup.trigger_flow_unknown")
         for it in c["items"]:
             if it["kind"] == "flow":
                 continue
@@ -1226,7 +1458,8 @@ REQUIRED_STRATA = (
        "campaign.rows=0", "campaign.rows=8", "triggers.rows=0", "triggers.rows=8", "delivery_hour.blank", "delivery_hour.given",
        "label.spaces", "label.upper", "keywords.n=0", "keywords.n=2", "groups.some", "exclude_groups.some",
        "outcome.accepted", "outcome.critical", "outcome.exception.validation", "outcome.exception.keyError",
-       "cli.invalid", "cli.valid"]
+       "cli.invalid", "cli.valid", "neardup.indexes", "neardup.trigger_flow_unknown"]
+    + [f"neardup.{what}.{k}" for what in ("group", "flow") for k in ("ws", "case", "trailing")]
 )
 
 
@@ -1249,7 +1482,11 @@ def run(ck: core.Check):
         "trigger sheets of 0..8 rows, optional columns present/absent in shuffled order, cells padded with whitespace; streams: main "
         "(all rows valid), invalid (1-2 injected statement-invalid cells: every enum incl. blank/lower-case/doubled values, message "
         "event without text, K trigger without keyword), edge (non-integers, unusable labels, trigger without flow, empty group name), "
-        "deterministic sweep of every enum value valid and invalid, known-finding stream; non-trivial = at least one campaign/trigger row; "
+        "deterministic sweep of every enum value valid and invalid, known-finding stream; names: fixed pools or (1 index in 5) families of "
+        "near-duplicates (equal up to one inner blank written as two blanks / tab / no-break space, up to letter case, up to a trailing "
+        "character) for groups, created flows and event-only flows, used together in one index, a third of those (main stream) with one "
+        "trigger naming a family member that nothing creates or names; deterministic near-duplicate corpus run first; "
+        "non-trivial = at least one campaign/trigger row; "
         "distinct = distinct item lists"
     )
     ck.assumptions = [
@@ -1272,6 +1509,7 @@ def run(ck: core.Check):
     cases = make_cases(ck.rng, n_main, n_inv, n_edge)
     sweep = enum_sweep_cases(10_000_000)
     known = known_cases(20_000_000)
+    near = neardup_cases(30_000_000)
 
     def fold(results):
         for r in results:
@@ -1295,7 +1533,7 @@ def run(ck: core.Check):
                 else:
                     ck.violation(what + " (matches no open finding record)", ex)
 
-    fold([case_worker(sweep + known)])
+    fold([case_worker(near + sweep + known)])
     fold(par.pmap(case_worker, core.shard(cases, par.NPROC * 2)))
 
     # direct ties
